@@ -17,11 +17,11 @@ def cfg(name, **kw):
     return name, '\n'.join(lines) + '\n'
 
 
-HO_CLASS_PROPS = dict(CLASS_PROPS, **{'sub': ['C05', 'C15', 'C14'], 'blocked': ['C14', 'C15']})
+HO_CLASS_PROPS = dict(CLASS_PROPS, **{'sub': ['C05', 'C15', 'C14', 'C08'], 'blocked': ['C14', 'C15']})
 
 
 def ho_cfg(name, **kw):
-    c = dict(MaxInner=2, MaxSteps=5, MaxPerSrc=3, Cuts='TRUE', InstSetName='"all"', TailSetName='"none"')
+    c = dict(MaxInner=2, MaxSteps=5, MaxPerSrc=3, Cuts='TRUE', InstSetName='"all"', TailSetName='"none"', SyncSetName='"none"')
     c.update(kw)
     lines = ['SPECIFICATION Spec', 'CONSTANTS'] + [' %s = %s' % (k, v) for k, v in c.items()]
     lines += ['INVARIANTS TypeOK Grammar ClosedReleasesAll ConcatOneAtATime CollectFirst EmitCase']
@@ -31,6 +31,7 @@ def ho_cfg(name, **kw):
 def run_ho(rep, pid, thorough):
     """HO.tla: higher-order operators over an ASYNCHRONOUS outer source (MergeAll / MergeMap / ConcatAll / FlatMap / CombineLatestAll / ZipAll)."""
     cfgs = [ho_cfg('ho-all', MaxSteps=6 if thorough else 5), ho_cfg('ho-all-nocut', MaxSteps=7 if thorough else 6, Cuts='FALSE'),
+            ho_cfg('ho-all-sync-inner', MaxSteps=6 if thorough else 5, SyncSetName='"ends"'),
             ho_cfg('ho-all-downstream-cut', MaxSteps=7 if thorough else 6, Cuts='FALSE', TailSetName='"cuts"')]
     pp.run(rep, pid, cfgs, modes='ctl-unsafe,ctl-safe', module='HOGen', replay_cmd='replay-multi', class_props=HO_CLASS_PROPS, prefix='multi.')
 
